@@ -6,6 +6,7 @@ import (
 	"bytes"
 	"fmt"
 	"io"
+	"runtime"
 	"time"
 )
 
@@ -197,34 +198,49 @@ func VerifEncodeMsg(name string, fs []VerifField) ([]byte, error) {
 // VerifDecodeMsg decodes a message body, as the client side does for a reply
 // (no tail check) when end is false, and with the tail check when end is true.
 func VerifDecodeMsg(name string, data []byte, bufCap int, end bool) (
-	fs []VerifField, count int64, errKind string,
+	fs []VerifField, count int64, errKind string, alloc uint64,
 ) {
 	m := verifNewMessage(name, nil, bufCap)
 	if m == nil {
-		return nil, 0, "other:unknown message"
+		return nil, 0, "other:unknown message", 0
 	}
 	dec := newDecoder(bytes.NewReader(data))
-	m.decodeFrom(dec)
-	if end {
-		dec.end()
-	}
+	alloc = verifMeasure(func() {
+		m.decodeFrom(dec)
+		if end {
+			dec.end()
+		}
+	})
 	_, fs = verifFieldsOf(m)
-	return fs, dec.count(), VerifErrKind(dec.Err())
+	return fs, dec.count(), VerifErrKind(dec.Err()), alloc
+}
+
+// verifMeasure reports the bytes allocated while f runs.
+func verifMeasure(f func()) uint64 {
+	var a, b runtime.MemStats
+	runtime.ReadMemStats(&a)
+	f()
+	runtime.ReadMemStats(&b)
+	return b.TotalAlloc - a.TotalAlloc
 }
 
 // VerifStartCall runs the server-side frame entry point.
 func VerifStartCall(data []byte) (
 	id uint64, typ uint8, name string, fs []VerifField, errKind string,
+	alloc uint64,
 ) {
 	s := &endpointServer{}
-	x, err := s.startCall(bytes.NewReader(data))
+	var x *endpointExchange
+	var err error
+	r := bytes.NewReader(data)
+	alloc = verifMeasure(func() { x, err = s.startCall(r) })
 	if err != nil {
-		return 0, 0, "", nil, VerifErrKind(err)
+		return 0, 0, "", nil, VerifErrKind(err), alloc
 	}
 	if x.req != nil {
 		name, fs = verifFieldsOf(x.req)
 	}
-	return x.id, x.t, name, fs, "ok"
+	return x.id, x.t, name, fs, "ok", alloc
 }
 
 // VerifEncodeReply encodes a full reply frame as the server does.
@@ -247,12 +263,14 @@ func VerifEncodeReply(
 
 // VerifHandleRead runs the server-side read handler against a session that
 // has avail bytes ready, with the given read size off the wire.
-func VerifHandleRead(maxRead int64, avail []byte) (n int, errCode int) {
+func VerifHandleRead(maxRead int64, avail []byte) (
+	n int, errCode int, alloc uint64,
+) {
 	s := newEndpointServer(nil, nil, &Options{})
 	c := newConnection(7)
 	defer c.cleanup()
 	if err := s.conns.add(c); err != nil {
-		return 0, -1
+		return 0, -1, 0
 	}
 	go func() {
 		peer := c.forServer()
@@ -260,9 +278,12 @@ func VerifHandleRead(maxRead int64, avail []byte) (n int, errCode int) {
 		peer.Write(avail)
 		peer.Close()
 	}()
-	resp := s.handleRead(&readRequest{session: 7, maxRead: int(maxRead)})
+	var resp *readResponse
+	alloc = verifMeasure(func() {
+		resp = s.handleRead(&readRequest{session: 7, maxRead: int(maxRead)})
+	})
 	if resp.err != nil {
-		return len(resp.bytes), resp.err.code
+		return len(resp.bytes), resp.err.code, alloc
 	}
-	return len(resp.bytes), 0
+	return len(resp.bytes), 0, alloc
 }
